@@ -25,6 +25,13 @@ def bad_arch_image_adds(rng, K, n):
     return ops
 
 
+def src_lookup(rng, ops):
+    """a consumer asks the manifest whether a variant has a source tree of its own (manifest[variant]['src'], KeyError =
+    no): asking does not create one"""
+    variants = sorted(set(o["variant"] for o in ops if o.get("op") in ("add", "model_add") and isinstance(o.get("variant"), str))) or ["Server"]
+    return {"op": "mf_lookup", "variant": pick(rng, variants), "arch": pick(rng, ["src", "src", "nosrc"]), "how": [pick(rng, ["item", "table"])]}
+
+
 def generate(rng, tier, idx):
     if idx % 2 == 0:
         K = gen_im.gen_c10_content(rng)
@@ -70,6 +77,8 @@ def generate(rng, tier, idx):
         ops.append({"op": "restart", "path": path, "via": pick(rng, ["path", "handle", "loads"]), "offset": rng.randint(0, 500)})
         for _ in range(rng.randint(0, 3)):
             ops.append(gen_mf.rpm_add(rng, arches=arches + ["src"], invalid=0.2))
+            if rng.random() < 0.5:
+                ops.append(src_lookup(rng, ops))
         ops.append({"op": "dump", "path": path})
         ops.append({"op": "restart", "path": path, "via": "path"})
         return {"machine": "M-RP", "cfg": {}, "ops": ops}
@@ -84,6 +93,8 @@ def generate(rng, tier, idx):
     ops.append({"op": "restart", "path": path, "via": pick(rng, ["path", "handle", "loads"]), "offset": rng.randint(0, 500)})
     for _ in range(rng.randint(0, 3)):
         ops.append(gen_mf.rpm_add(rng, arches=arches + ["src"], invalid=0.2))
+        if rng.random() < 0.5:
+            ops.append(src_lookup(rng, ops))
     ops.append({"op": "dump", "path": path})
     ops.append({"op": "restart", "path": path, "via": "path"})
     return {"machine": "M-RP", "cfg": {}, "ops": ops}
